@@ -15,7 +15,9 @@ SPEC = dict(
                 "consistent lengths) / the tree has more than one term leaf; distinct = distinct Coq case terms. Oracle "
                 "evaluations: positivity and finiteness, the four monotonicity / linearity laws on pairs differing in one "
                 "statistic (weak inequality always, strict unless the exact real gap is below the float64 forward error, "
-                "counted as saturated:*), composite = sum x boost, explanation root = score without explanation, every node = "
+                "counted as saturated:*), boost linearity end to end for every public query kind accepting SetBoost (term, fuzzy, "
+                "prefix, wildcard, regexp, term/numeric/date range, geo, match with fuzziness/prefix/operator, phrase, "
+                "multi-phrase, match-all, nested booleans; exact for 0.5 and 2, 512 ulp for 3), composite = sum x boost, explanation root = score without explanation, every node = "
                 "its message's formula parsed and evaluated on its children."),
     trust=[
         "axioms of Coq's real numbers, reported by Print Assumptions under the real-number theorems: "
@@ -57,7 +59,8 @@ META = dict(
           "trees are modelled with their message texts, each text is read as a formula and proved equal to the node's value."),
     design_ref="DESIGN.md Part 2 C17, Part 3 D4",
     note=("D4 (idf message stated another formula) was repaired by correcting the message (commit 768aa58); the engine also "
-          "found that MatchQuery applied its boost twice (score x c^2), repaired by commit e1675c8. Both are listed in "
+          "found that MatchQuery applied its boost twice (score x c^2, commit e1675c8), that MatchAll/DateRange/GeoBoundingBox "
+          "queries ignored their boost (cfbe686) and that phrase queries ignored it (99359f9). All are listed in "
           "findings/C17.json with status fixed; the engine re-reports either divergence should it reappear."),
     technique="Coq proof over R (lra/field/ln lemmas) + PrimFloat model evaluated by vm_compute on observed outputs",
 )
